@@ -695,3 +695,44 @@ Definition in_range (n : Z) (m : list Z) : bool :=
 Definition slots_count (slots : list (option (list Z))) : nat :=
   length (filter (fun s => match s with Some _ => true | None => false end)
                  slots).
+
+(* the map requested by one store_basin call *)
+Definition sb_map (sb : sbasin) : option (list Z) :=
+  match sb with
+  | SBInternal _ m => Some m
+  | SBFile _ m _ _ => m
+  end.
+
+(* a basin definition refers to a basinmap feature holding exactly [m] *)
+Definition slot_holds (slots : list (option (list Z))) (b : bdef)
+           (m : option (list Z)) : Prop :=
+  match m with
+  | None => b_slot b = None
+  | Some mm => exists k, b_slot b = Some k /\ slot slots k = Some mm
+  end.
+
+(* well-formed pipeline states: [truth f] is the measurement's feature f,
+   [omap fid] the origin events that the events of file fid stand for *)
+Section Sound.
+  Variable truth : Z -> list Z.
+  Variable omap : nat -> list Z.
+
+  Definition file_sound (st : store) (fid : nat) (fl : file) : Prop :=
+    (forall f d, assoc f (f_innate fl) = Some d ->
+                 gather (truth f) (omap fid) = Some d) /\
+    (forall b, In b (f_basins fl) -> b_internal b = false ->
+       match b_slot b with
+       | None => omap fid = omap (b_target b)
+       | Some k => exists m, slot (f_slots fl) k = Some m /\
+                             gather (omap (b_target b)) m = Some (omap fid)
+       end) /\
+    (forall b, In b (f_basins fl) -> b_internal b = true ->
+       exists k m rows,
+         b_slot b = Some k /\ slot (f_slots fl) k = Some m /\
+         gather rows m = Some (omap fid) /\
+         forall f d, assoc f (b_int b) = Some d ->
+                     gather (truth f) rows = Some d).
+
+  Definition store_sound (st : store) : Prop :=
+    forall fid fl, get_file st fid = Some fl -> file_sound st fid fl.
+End Sound.
